@@ -172,7 +172,11 @@ def near_misses(uid):
     for k in range(1, len(s)):
         out.add(int(s[:k]))           # decimal prefixes
         out.add(int(s[k:]))           # decimal suffixes
-    out.add(int(s + "0"))
+    for d in "0159":
+        out.add(int(s + d))           # the uid's decimal text extended by one digit ...
+        out.add(int(d + s) if d != "0" else int("10" + s))   # ... or preceded by one
+    out.add(int(s + s))
+    out.add(uid // 10)
     out.add(int("1" + s))
     if uid < 2 ** 31:
         out.add(uid + 2 ** 31)
